@@ -108,20 +108,21 @@ func ruleC05Task(cx *Ctx) {
 				default:
 					wantTask = "update"
 				}
-				ok := len(tasks) == 1 && len(enq) == 1 && len(async) == 0
-				detail := fmt.Sprintf("%d task(s) %v, %d enqueue/run, %d direct notification(s)", len(tasks), tasks, len(enq), len(async))
+				// the task is identified by its contents at the point where it is enqueued / replayed
+				ok := len(tasks) <= 1 && len(enq) == 1 && len(async) == 0
+				detail := fmt.Sprintf("%d enqueue/run %v, %d direct notification(s)", len(enq), enq, len(async))
 				if ok {
-					t := tasks[0]
-					switch wantTask {
-					case "delete":
-						ok = t.Args[0] == c.cur && isZeroTerm(t.Args[1]) && t.Args[2] == pc.deleteReason
-					case "add":
-						ok = t.Args[0] == c.exit && isZeroTerm(t.Args[1]) && t.Args[2] == pc.addReason
-					case "update":
-						ok = t.Args[0] == c.exit && t.Args[1] == c.cur && t.Args[2] == pc.updateReason
-					}
+					ta := splitArgs(enq[0].Args[0])
+					ok = strings.HasPrefix(enq[0].Args[0], "task(") && len(ta) == 4
 					if ok {
-						ok = enq[0].Args[0] == "task("+strings.Join(t.Args, ",")+")"
+						switch wantTask {
+						case "delete":
+							ok = ta[0] == c.cur && isZeroTerm(ta[1]) && ta[2] == pc.deleteReason
+						case "add":
+							ok = ta[0] == c.exit && isZeroTerm(ta[1]) && ta[2] == pc.addReason
+						case "update":
+							ok = ta[0] == c.exit && ta[1] == c.cur && ta[2] == pc.updateReason
+						}
 					}
 				}
 				a.check(name+" "+eff+": one "+wantTask+" task", ok, "the table change is recorded by exactly one "+wantTask+" task carrying the right nodes, enqueued (or run) once", detail, o)
@@ -206,9 +207,13 @@ func ruleC06Atomic(cx *Ctx) {
 				a.check(name+" "+eff+": one atomic report, truthful cause", ok, "exactly one atomic report with the removed node's key, value and cause", detail, o)
 				// same cause in the task / direct notification
 				if wm, k := flagOf(o, "withMaintenance"); k && wm && len(ats) == 1 && spec.kind != "evict" {
-					for _, t := range eventsOf(o, "Task", c.exitIdx, c.next) {
-						if t.Args[0] == c.cur || t.Args[1] == c.cur {
-							a.check(name+" "+eff+": task cause = atomic cause", t.Args[3] == ats[0].Args[2], "the deferred report carries the same cause as the atomic one", "task cause "+t.Args[3]+" vs atomic "+ats[0].Args[2], o)
+					for _, q := range append(eventsOf(o, "Enqueue", c.exitIdx, c.next), eventsOf(o, "RunTask", c.exitIdx, c.next)...) {
+						ta := splitArgs(q.Args[0])
+						if !strings.HasPrefix(q.Args[0], "task(") || len(ta) != 4 {
+							continue
+						}
+						if ta[0] == c.cur || ta[1] == c.cur {
+							a.check(name+" "+eff+": task cause = atomic cause", ta[3] == ats[0].Args[2], "the deferred report carries the same cause as the atomic one", "task cause "+ta[3]+" vs atomic "+ats[0].Args[2], o)
 						}
 					}
 				}
